@@ -236,7 +236,7 @@ for _n in ["scope5", "scope6", "scope_q1", "scope_qfull", "ctx4", "ctx5", "poll_
     INSTANCES[_n] = (dict(INSTANCES[_n][0], probe_ctx=True), INSTANCES[_n][1], INSTANCES[_n][2])
 # ... and SpanContext::from_span of every live handle (pure queries leave the model's state unchanged, so
 # behaviours that differ only in where they ask collapse into one terminal state: the harness asks everywhere)
-for _n in ["ctx4", "ctx5", "smp4", "smp5", "tree4", "tree5"]:
+for _n in ["ctx4", "ctx5", "smp4", "smp5", "tree4", "tree5", "time_tree4", "time_smp4", "time_att4"]:
     INSTANCES[_n] = (dict(INSTANCES[_n][0], probe_ctx=True, probe_spans=True), INSTANCES[_n][1], INSTANCES[_n][2])
 
 # mixed sampled / unsampled parent sets behind a local parent (seeded S09, S10)
@@ -403,4 +403,13 @@ INSTANCES.update({
     "scope_deep": (dict(seq(["setlp", "dropg", "lenter", "lexit", "levent", "childl"], MaxOps=5, MaxSpans=3, MaxRoots=1, MaxScopes=3, MaxLocal=2, MaxAtt=2,
                             MaxCycles=0, probe_ctx=True, probe_spans=True),
                         prefix=True, prog={1: [S("root", tr=1, smp=True), S("setlp", h=101)]}), "terminal", {}),
+})
+
+
+# a LocalCollector dropped without collect() while a local span entered in it is open, then another scope
+# (seeded S87: the discarded line's queue is recycled with its parent cursor)
+INSTANCES.update({
+    "lcdrop_open": (dict(seq(["lcstart", "lenter", "collectopen", "setlp", "dropg", "childl", "levent"], MaxOps=6, MaxSpans=2, MaxRoots=1, MaxScopes=2, MaxLocal=2,
+                             MaxAtt=1, MaxLs=1, MaxCycles=0, probe_ctx=True, probe_spans=True),
+                         prefix=True, prog={1: [S("root", tr=1, smp=True)]}), "terminal", {}),
 })
